@@ -21,6 +21,8 @@ import sys
 import time
 import traceback
 
+import anchorcov
+
 HERE = os.path.dirname(os.path.abspath(__file__))
 ROOT = os.path.dirname(HERE)
 LEAN = os.path.join(ROOT, "lean")
@@ -219,7 +221,8 @@ def save_replay(pid, name, obj):
 def _impl_one(args):
     prop_name, case = args
     mod = importlib.import_module("props." + prop_name)
-    return safe_impl(mod, case)
+    r = safe_impl(mod, case)
+    return r, anchorcov.drain()
 
 
 def safe_impl(mod, case):
@@ -236,8 +239,12 @@ def run_impls(mod, cases, parallel):
         import multiprocessing as mp
 
         ctx = mp.get_context("fork")
+        anchorcov.drain()
         with ctx.Pool(min(16, os.cpu_count() or 4)) as pool:
-            return pool.map(_impl_one, [(mod.__name__.split(".")[-1], c) for c in cases], chunksize=16)
+            out = pool.map(_impl_one, [(mod.__name__.split(".")[-1], c) for c in cases], chunksize=16)
+        for _r, new in out:
+            anchorcov.merge(new)
+        return [r for r, _new in out]
     return [safe_impl(mod, c) for c in cases]
 
 
@@ -284,6 +291,11 @@ def main(argv=None):
 
     known = [k for k in load_known() if k.get("property") == pid and k.get("status") == "known"]
     known_keys = {k["key"]: k for k in known}
+
+    try:
+        anchorcov.install()
+    except Exception:  # measurement only: never decides anything
+        traceback.print_exc()
 
     try:
         if hasattr(mod, "setup"):
@@ -571,6 +583,7 @@ def write_evidence(pid, tier, seed, mod, recs, obligations, extra_obl, discharge
             "regenerated_tables": translate_info,
             "lean_files_in_closure": closure_files,
             "known_findings_reported": known_lines,
+            "anchor_coverage": anchorcov.report(pid),
             "broken_obligations": broken,
         },
         "assumptions": list(getattr(mod, "ASSUMPTIONS", [])),
